@@ -14426,12 +14426,11 @@ func parseEvpnExtended(data []byte) (ExtendedCommunityInterface, error) {
 			Label:  label,
 		}, nil
 	case EC_SUBTYPE_MULTICAST_FLAGS:
-		if flags := data[3]; flags != 0 {
-			return &MulticastFlagsExtended{
-				IsIGMPProxy: flags&uint8(IGMP_PROXY) > 0,
-				IsMLDProxy:  flags&uint8(MLD_PROXY) > 0,
-			}, nil
-		}
+		flags := data[3]
+		return &MulticastFlagsExtended{
+			IsIGMPProxy: flags&uint8(IGMP_PROXY) > 0,
+			IsMLDProxy:  flags&uint8(MLD_PROXY) > 0,
+		}, nil
 	}
 	return nil, NewMessageError(BGP_ERROR_UPDATE_MESSAGE_ERROR, BGP_ERROR_SUB_MALFORMED_ATTRIBUTE_LIST, nil, fmt.Sprintf("unknown evpn subtype: %d", subType))
 }
